@@ -49,6 +49,12 @@ type c17Case struct {
 	// ticks do); the sink rejects every request during the first FailRuns executions and is healthy afterwards.
 	Runs     int `json:"runs,omitempty"`
 	FailRuns int `json:"failRuns,omitempty"`
+	// Trig2 != "": the job has a SECOND trigger of the same job type ("cron" with another schedule, or
+	// "onchange") whose log handler has MaxItems2. First says which trigger's job object is executed first
+	// (1 or 2), the other one is executed right after it. Each execution has to obey its own trigger's handler.
+	Trig2     string `json:"trig2,omitempty"`
+	MaxItems2 int    `json:"maxItems2,omitempty"`
+	First     int    `json:"first,omitempty"`
 }
 
 func c17Subset(mask, k int) []int {
@@ -141,6 +147,44 @@ func c17EnumList(tier string, transform bool) []c17Case {
 							for _, kind := range []string{"incremental", "fullsync"} {
 								out = append(out, c17Case{K: k, B: b, Fail: []int{}, MaxItems: m, Kind: kind, Trigger: "direct", Transform: tr, Runs: fr + 2, FailRuns: fr})
 							}
+						}
+					}
+				}
+			}
+		}
+	}
+	// two triggers of the same job type with different log handlers; the second one runs after the first
+	if !transform {
+		x := 0
+		for _, k := range []int{3, 5} {
+			for mask := 1; mask < 1<<k; mask++ {
+				f := c17Subset(mask, k)
+				if len(f) < 2 {
+					continue
+				}
+				for _, b := range []int{2, k} {
+					if f[0] >= b {
+						continue // the first rejection has to fall into the first batch: then both executions read the whole source
+					}
+					for _, mm := range [][2]int{{1, 0}, {0, 1}, {1, 3}, {2, 0}} {
+						for _, first := range []int{1, 2} {
+							firstM := mm[first-1]
+							kind := "fullsync"
+							inFirst := 0
+							for _, fi := range f {
+								if fi < b {
+									inFirst++
+								}
+							}
+							if firstM > 0 && inFirst >= firstM && x%2 == 0 {
+								kind = "incremental" // the first execution stops in the first batch and leaves the token where it was
+							}
+							t2 := "cron"
+							if x%3 == 0 {
+								t2 = "onchange"
+							}
+							x++
+							out = append(out, c17Case{K: k, B: b, Fail: f, MaxItems: mm[0], Kind: kind, Trigger: "direct", Trig2: t2, MaxItems2: mm[1], First: first})
 						}
 					}
 				}
@@ -371,10 +415,11 @@ func (s *c17Sink) noteStart(job string) {
 // ---------- state
 
 type c17State struct {
-	ctx  *Ctx
-	h    *c10Hub
-	sink *c17Sink
-	srcs map[int]bool
+	trig2 map[string]any // extra trigger put into the next job configuration (nil = none)
+	ctx   *Ctx
+	h     *c10Hub
+	sink  *c17Sink
+	srcs  map[int]bool
 }
 
 func c17Open(ctx *Ctx) *c17State {
@@ -430,9 +475,13 @@ func (st *c17State) jobJSON(id, src, kind string, b int, transform bool, schedul
 	if onError != nil {
 		trig["onError"] = onError
 	}
+	trigs := []any{trig}
+	if st.trig2 != nil {
+		trigs = append(trigs, st.trig2)
+	}
 	cfg := map[string]any{
 		"id": id, "title": id, "paused": paused, "batchSize": b,
-		"triggers": []any{trig},
+		"triggers": trigs,
 		"source":   map[string]any{"Type": "DatasetSource", "Name": src},
 		"sink":     map[string]any{"Type": "HttpDatasetSink", "Url": st.sink.srv.URL + "/sink/" + id},
 	}
@@ -469,6 +518,11 @@ func c17Merge(job string, sinkEv []c17Ev, logs []c10LogRec) []c17Ev {
 				st = "terminated"
 			}
 			evs = append(evs, c17Ev{Seq: l.Seq, Ns: l.Ns, Kind: "end", Msg: st})
+			if em, _ := l.Fields["job.executionErrorMessage"].(string); st == "failed" && em == "got job interrupt" {
+				// the pipeline stopped because its context was cancelled, i.e. the kill took effect,
+				// whatever the hub then made of that error
+				evs = append(evs, c17Ev{Seq: l.Seq, Ns: l.Ns, Kind: "end", Msg: "interrupted"})
+			}
 		case strings.Contains(l.Msg, "completed, but errors occurred") && c17HasValue(l.Fields, job):
 			// handleJobError logs title and id as a key/value pair (Warnw with a format string)
 			evs = append(evs, c17Ev{Seq: l.Seq, Ns: l.Ns, Kind: "end", Msg: "failed-late"})
@@ -653,6 +707,9 @@ func c17Enum(ctx *Ctx) error {
 		if c.Runs > 1 {
 			tags = append(tags, "failing-then-clean-executions")
 		}
+		if c.Trig2 != "" {
+			tags = append(tags, "two-triggers-of-one-job-type", "trigger2:"+c.Trig2)
+		}
 		if c.Sampled {
 			tags = append(tags, "sampled")
 		} else {
@@ -678,6 +735,10 @@ func (st *c17State) runEnum(caseID string, pos int, c c17Case) {
 		}
 		if c.Runs > 1 {
 			rf += fmt.Sprintf(" executions=%d sinkDownDuringFirst=%d", c.Runs, c.FailRuns)
+		}
+		if c.Trig2 != "" {
+			class += "/two-triggers-of-one-job-type"
+			rf += fmt.Sprintf(" trigger2=%s(maxItems %d) first=%d", c.Trig2, c.MaxItems2, c.First)
 		}
 		out.Stat("viol:"+class, 1)
 		out.Viol(caseID, "C17", class, fmt.Sprintf("k=%d b=%d fail=%v budget=%d maxItems=%d %s/%s transform=%v%s: %s", c.K, c.B, c.Fail, c.Budget, c.MaxItems, c.Kind, c.Trigger, c.Transform, rf, msg),
@@ -734,8 +795,20 @@ func (st *c17State) runEnum(caseID string, pos int, c c17Case) {
 		}
 		out.Stat("runs_via_real_cron", 1)
 	} else {
+		wantJobs := 1
+		if c.Trig2 != "" {
+			wantJobs = 2
+			t2 := map[string]any{"triggerType": "cron", "jobType": c.Kind, "schedule": "@every 25h",
+				"onError": []map[string]any{{"errorHandler": "log", "maxItems": c.MaxItems2}}}
+			if c.Trig2 == "onchange" {
+				t2 = map[string]any{"triggerType": "onchange", "jobType": c.Kind, "monitoredDataset": src,
+					"onError": []map[string]any{{"errorHandler": "log", "maxItems": c.MaxItems2}}}
+			}
+			st.trig2 = t2
+		}
 		_, js, err := st.h.c10AddPaused(st.jobJSON(jobID, src, c.Kind, c.B, c.Transform, "@every 24h", true, onErr))
-		if err != nil || len(js) != 1 {
+		st.trig2 = nil
+		if err != nil || len(js) != wantJobs {
 			out.Inconclusive(caseID, "C17", fmt.Sprintf("cannot configure job: %v", err))
 			st.sink.remove(jobID)
 			return
@@ -754,6 +827,20 @@ func (st *c17State) runEnum(caseID string, pos int, c c17Case) {
 		nruns := c.Runs
 		if nruns < 1 {
 			nruns = 1
+		}
+		if c.Trig2 != "" {
+			// one execution per trigger: each trigger has its own job object (and its own handlers)
+			order := []int{0, 1}
+			if c.First == 2 {
+				order = []int{1, 0}
+			}
+			for _, ji := range order {
+				if !panicked {
+					panicked, pmsg, _ = c10RunGuarded(js[ji].RunAsCron)
+				}
+			}
+			out.Stat("two_trigger_cases", 1)
+			nruns = 0
 		}
 		for x := 0; x < nruns && !panicked; x++ {
 			// every execution uses the same job object, like consecutive cron ticks
@@ -800,7 +887,15 @@ func (st *c17State) runEnum(caseID string, pos int, c c17Case) {
 		return
 	}
 	for ri, run := range runs {
-		o := c17Observe(run, c.MaxItems)
+		runMax, runAll := c.MaxItems, ri == 0
+		if c.Trig2 != "" {
+			// execution ri belongs to trigger 1 or 2; both read the whole source (see the enumeration)
+			if (ri == 0) == (c.First == 2) {
+				runMax = c.MaxItems2
+			}
+			runAll = ri <= 1
+		}
+		o := c17Observe(run, runMax)
 		out.Stat("runs_observed", 1)
 		out.Stat("ev:sink_requests", int64(o.Requests))
 		out.Stat("ev:sink_rejects", int64(o.Rejected))
@@ -808,7 +903,7 @@ func (st *c17State) runEnum(caseID string, pos int, c c17Case) {
 		for _, n := range o.Acc {
 			out.Stat("ev:entities_accepted", int64(n))
 		}
-		stopped := c17Judge(o, c.K, c.MaxItems, ri == 0, func(class, msg string, exp, got any) {
+		stopped := c17Judge(o, c.K, runMax, runAll, func(class, msg string, exp, got any) {
 			viol(class, fmt.Sprintf("run %d: %s", ri+1, msg), exp, got, run)
 		})
 		if stopped {
